@@ -105,41 +105,22 @@ Fixpoint is_prefix (a b : list (@event str)) : bool :=
   | _ :: _, [] => false
   end.
 
-(* the input class of the open finding user-hash-ptype-key: a hash of the value (or of its lossy image)
-   whose keys are all strings and include __ptype.  The deserializer reads such a hash as an encoded
-   rich value, and what comes out depends on the loader (is the string a known type name?), which the
-   model does not contain; on this class only the event stream is compared. *)
-Fixpoint has_ptype_hash (e : env) (v : @rvalue str) {struct v} : bool :=
-  match v with
-  | VArr _ vs => existsb (has_ptype_hash e) vs
-  | VHash _ es =>
-      let strkeys := e_ck e || all_keys_str es in
-      (forallb (fun en => match fst (fst en) with VStr _ => true | _ => negb strkeys && negb (e_rich e) end) es &&
-       existsb (fun en => match en with
-                          | (VStr s, _, _) => str_eqb s ptype_key
-                          | (_, kd, _) => negb strkeys && negb (e_rich e) && str_eqb kd ptype_key
-                          end) es)
-      || (fix go (l : list (@rvalue str * str * @rvalue str)) : bool :=
-            match l with
-            | [] => false
-            | (k, _, x) :: l' => has_ptype_hash e k || has_ptype_hash e x || go l'
-            end) es
-  | VSens _ x => e_rich e && has_ptype_hash e x
-  | VObj _ ty _ attrs _ =>
-      e_rich e && (has_ptype_hash e ty ||
-      (fix go (l : list (str * @rvalue str)) : bool :=
-         match l with [] => false | (_, x) :: l' => has_ptype_hash e x || go l' end) attrs)
-  | _ => false
-  end.
-
+(* The input class of the open finding user-hash-ptype-key is the complement of the guard rt_ok of the
+   round-trip theorem (Model/Ser.v): a hash of the value (or of its lossy image) whose keys are all strings
+   and include __ptype.  The deserializer reads such a hash as an encoded rich value, and what comes out
+   depends on the loader (is the string a known type name?), which the model does not contain; on this class
+   only the event stream is compared. *)
 Definition ser_check (c : case) : bool :=
   let '(o, cp, x, ob) := c in
   let evs := serialize ts o cp x in
+  (* the hypothesis wf_rich of the theorems holds of the reflected Go value: same tag => same subtree
+     (checker proved sound: SerProofs.wf_richb_str_sound) *)
+  wf_richb (rvalue_eqb str_eqb) x &&
   match ob with
   | ObsOk oevs r =>
       list_eqb event_eqb evs oevs &&
       wf_stream (env_of o cp) oevs &&
-      (has_ptype_hash (env_of o cp) x || res_matches (bind (collect evs) (deser os)) r)
+      (negb (rt_ok ts (env_of o cp) x) || res_matches (bind (collect evs) (deser os)) r)
   | ObsSerFault oevs => is_prefix oevs evs && is_fault (collect evs)
   end.
 
